@@ -1,6 +1,7 @@
 import BeyondVerif.Model.PropagR
 import BeyondVerif.Lemmas.TwoBody
 import BeyondVerif.Lemmas.NewtonKepler
+import BeyondVerif.Props.C03
 import Mathlib.Analysis.SpecialFunctions.Trigonometric.Bounds
 import Mathlib.Analysis.SpecialFunctions.Trigonometric.DerivHyp
 import Mathlib.Tactic.Ring
@@ -190,6 +191,238 @@ theorem kepler_solves_two_body (mu : ℝ) (x : Elts) (hmu : 0 < mu) (ha : 0 < x.
 example (mu : ℝ) (hmu : 0 < mu) : ∃ E : ℝ → ℝ,
     ∀ t, E t - (0 : ℝ) * Real.sin (E t) = (keplerStep mu ⟨1, 0, 1, 2, 3, 0.25⟩ t).M :=
   ⟨fun t => 0.25 + meanMotion mu 1 * t, by intro t; simp [keplerStep_eq]⟩
+
+
+/-! ## Propagation to a date: `delta_t` is the difference of INSTANTS, whatever the two scales
+
+`Orbit.propagate` is handed a `Date` (in any of the six scales) or a `timedelta`; the epoch of the orbit is a `Date` in any
+of the six scales.  `keplerDeltaT`, `j2DeltaT`, `keplerTdTarget`, `j2TdTarget` are translated from the head of
+`Kepler.propagate` / `J2.propagate` on every run (the extractor refuses any arithmetic on a date's own-scale clock fields);
+the dates are those of the C03 model (`Model/Date.lean`: `inst` = ticks of 10⁻⁷ s on the reference scale TAI, `scale` = the
+label), so every statement below quantifies over **all pairs of scales** of epoch and target. -/
+
+theorem tdTotalSeconds_eq (us : ℤ) : tdTotalSeconds us = (us : ℝ) / 1000000 := rfl
+
+theorem tdTotalSeconds_add (a b : ℤ) : tdTotalSeconds (a + b) = tdTotalSeconds a + tdTotalSeconds b := by
+  simp only [tdTotalSeconds_eq]; push_cast; ring
+
+/-- what both propagators compute as `delta_t` (re-proved against the regenerated definitions on every run): the seconds of
+the timedelta `date − epoch`, which `Date.__sub__` takes between the reference-scale (TAI) datetimes -/
+theorem deltaT_eq (date epoch : Date.Date) :
+    keplerDeltaT date epoch = ((Date.subDate date epoch : ℤ) : ℝ) / 1000000 ∧
+    j2DeltaT date epoch = ((Date.subDate date epoch : ℤ) : ℝ) / 1000000 := by
+  constructor <;> simp [keplerDeltaT, j2DeltaT, tdTotalSeconds_eq]
+
+/-- the spans of consecutive legs add up exactly, for any three dates in any scales -/
+theorem deltaT_telescope (e d₁ d₂ : Date.Date) :
+    keplerDeltaT d₁ e + keplerDeltaT d₂ d₁ = keplerDeltaT d₂ e ∧ j2DeltaT d₁ e + j2DeltaT d₂ d₁ = j2DeltaT d₂ e := by
+  simp only [(deltaT_eq _ _).1, (deltaT_eq _ _).2, Date.subDate]; push_cast
+  constructor <;> ring
+
+theorem deltaT_self (d : Date.Date) : keplerDeltaT d d = 0 ∧ j2DeltaT d d = 0 := by
+  simp [(deltaT_eq _ _).1, (deltaT_eq _ _).2, Date.subDate]
+
+/-- ten times the microsecond difference is the difference of the instants (ticks) when both dates are whole microseconds -/
+theorem subDate_inst (date epoch : Date.Date) (hd : date.s % 10 = 0) (he : epoch.s % 10 = 0) :
+    10 * Date.subDate date epoch = date.inst - epoch.inst := by
+  have e1 := Date.roundUs_exact hd
+  have e2 := Date.roundUs_exact he
+  simp only [Date.subDate, Date.Date.datetimeRef, Date.Date.inst, Date.D, Date.DUS] at *
+  omega
+
+/-- … and within one microsecond of it for arbitrary dates (UT1, TDB: offsets that are not whole microseconds) -/
+theorem subDate_inst_bound (date epoch : Date.Date) :
+    -10 ≤ 10 * Date.subDate date epoch - (date.inst - epoch.inst) ∧ 10 * Date.subDate date epoch - (date.inst - epoch.inst) ≤ 10 := by
+  have e1 := Date.roundUs_bound date.s
+  have e2 := Date.roundUs_bound epoch.s
+  simp only [Date.subDate, Date.Date.datetimeRef, Date.Date.inst, Date.D, Date.DUS] at *
+  omega
+
+/-- **`delta_t` is the elapsed time between the two instants** — seconds = ticks / 10⁷ — for an epoch and a target given in
+ANY pair of scales (`date.scale`, `epoch.scale` are unconstrained; the offsets `date.off`, `epoch.off` of the two scales do
+not occur). -/
+theorem deltaT_eq_instant_diff (date epoch : Date.Date) (hd : date.s % 10 = 0) (he : epoch.s % 10 = 0) :
+    keplerDeltaT date epoch = ((date.inst - epoch.inst : ℤ) : ℝ) / 10000000 ∧
+    j2DeltaT date epoch = ((date.inst - epoch.inst : ℤ) : ℝ) / 10000000 := by
+  rw [(deltaT_eq _ _).1, (deltaT_eq _ _).2, ← subDate_inst date epoch hd he]
+  push_cast
+  constructor <;> ring
+
+/-- **Kepler, target and epoch in any pair of scales: a, e, i, node, perigee unchanged, the mean anomaly advanced by n times
+the time elapsed between the two INSTANTS, the result stamped with the requested date.** -/
+theorem kepler_M_advance_dates (mu : ℝ) (o : Orb) (date : Date.Date) (hmu : 0 < mu) (ha : o.elts.a ≠ 0)
+    (hd : date.s % 10 = 0) (he : o.date.s % 10 = 0) :
+    (keplerTo mu o date).elts.M
+        = o.elts.M + Real.sqrt (mu / |o.elts.a| ^ 3) * (((date.inst - o.date.inst : ℤ) : ℝ) / 10000000) ∧
+    (keplerTo mu o date).elts.a = o.elts.a ∧ (keplerTo mu o date).elts.e = o.elts.e ∧ (keplerTo mu o date).elts.i = o.elts.i ∧
+    (keplerTo mu o date).elts.raan = o.elts.raan ∧ (keplerTo mu o date).elts.argp = o.elts.argp ∧
+    (keplerTo mu o date).date = date := by
+  refine ⟨?_, ?_⟩
+  · simp only [keplerTo]
+    rw [kepler_M_advance mu o.elts _ hmu ha, (deltaT_eq_instant_diff date o.date hd he).1]
+  · simp [keplerTo, keplerStep]
+
+/-- the same for arbitrary dates (no microsecond hypothesis), in microseconds of the `timedelta` -/
+theorem kepler_M_advance_dates_us (mu : ℝ) (o : Orb) (date : Date.Date) (hmu : 0 < mu) (ha : o.elts.a ≠ 0) :
+    (keplerTo mu o date).elts.M
+        = o.elts.M + Real.sqrt (mu / |o.elts.a| ^ 3) * (((Date.subDate date o.date : ℤ) : ℝ) / 1000000) := by
+  simp only [keplerTo]
+  rw [kepler_M_advance mu o.elts _ hmu ha, (deltaT_eq date o.date).1]
+
+/-- the hypotheses are satisfiable by dates in two DIFFERENT scales: an epoch labelled 2 (UTC) with offset 37 s and a target
+labelled 5 (TT) with offset 32.184 s, 10 s of TAI later -/
+example : (keplerTo 4 ⟨⟨1, 0.5, 1, 2, 3, 0.25⟩, ⟨58000, 370000000, 370000000, 2, ⟨370000000, 0⟩⟩⟩
+    ⟨58000, 470000000, 321840000, 5, ⟨370000000, 0⟩⟩).elts.M = 0.25 + 2 * 10 := by
+  rw [(kepler_M_advance_dates _ _ _ (by norm_num) (by norm_num) (by decide) (by decide)).1]
+  norm_num [sqrt_four, Date.Date.inst, Date.D]
+
+/-- **The offsets of the two scales enter the span**: for an epoch built as `Date(datetime, scale=E)` and a target built as
+`Date(datetime, scale=T)` from the clock readings `usE`, `usT` (µs) — any two scales, any Earth-orientation environment, the
+offsets `TAI − E`, `TAI − T` (ticks) being whole microseconds — the mean anomaly advances by
+`n · ((usT + (TAI − T)) − (usE + (TAI − E)))`: the difference of the clock READINGS alone (what the own-scale fields
+`date.d`, `date.s` give) is off by the difference of the two offsets, e.g. 32.184 s for UTC → TT without Earth-orientation data. -/
+theorem kepler_M_advance_readings {env : Date.Env} (mu : ℝ) (x : Elts) (scE scT : Nat) (usE usT : ℤ) (e t : Date.Date)
+    (hE : Date.ofDatetime Date.cfg env scE usE = .ok e) (hT : Date.ofDatetime Date.cfg env scT usT = .ok t)
+    (hoE : e.off % 10 = 0) (hoT : t.off % 10 = 0) (hmu : 0 < mu) (ha : x.a ≠ 0) :
+    e.scale = scE ∧ t.scale = scT ∧
+    (keplerTo mu ⟨x, e⟩ t).elts.M
+      = x.M + Real.sqrt (mu / |x.a| ^ 3) * ((((10 * usT + t.off) - (10 * usE + e.off) : ℤ) : ℝ) / 10000000) := by
+  obtain ⟨hwE, hsE, hiE⟩ := Date.ofDatetime_spec hE
+  obtain ⟨hwT, hsT, hiT⟩ := Date.ofDatetime_spec hT
+  have h10 : ∀ (y : Date.Date), Date.WF Date.cfg env y → ∀ us : ℤ, y.inst = 10 * us + y.off → y.off % 10 = 0 → y.s % 10 = 0 := by
+    intro y hy us hi ho
+    have := hy.s_nonneg; have := hy.s_lt
+    simp only [Date.Date.inst, Date.D] at *
+    omega
+  refine ⟨hsE, hsT, ?_⟩
+  rw [(kepler_M_advance_dates mu ⟨x, e⟩ t hmu ha (h10 t hwT usT hiT hoT) (h10 e hwE usE hiE hoE)).1]
+  simp only [hiT, hiE]
+
+/-- the offset to TAI a TT date carries is −32.184 s, a UTC date carries `TAI − UTC` of its Earth-orientation record
+(`C03.offset_TT_TAI`, `C03.offset_TAI_UTC`, `C03.offset_antisymm`, on the scale graph regenerated from the source) -/
+theorem off_TT_UTC {env : Date.Env} {x : Date.Date} (hx : Date.WF Date.cfg env x) :
+    (x.scale = C03.ix "TT" → x.off = -321840000) ∧ (x.scale = C03.ix "UTC" → x.off = x.eop.taiUtc) := by
+  obtain ⟨num, h⟩ := hx.off_eq
+  have href : Date.cfg.ref = C03.ix "TAI" := by decide
+  rw [href] at h
+  constructor
+  · intro hs
+    rw [hs] at h
+    exact C03.offset_antisymm env num x.eop (C03.ix "TAI") (by decide) (C03.ix "TT") (by decide) _ _
+      (C03.offset_TT_TAI env num x.eop) h
+  · intro hs
+    rw [hs] at h
+    have := C03.offset_TAI_UTC env num x.eop
+    rw [this] at h
+    exact (Except.ok.inj h).symm
+
+/-- **Epoch in UTC, target in TT** (the pair of the demonstration of seeded change m4): with clock readings `usE` (UTC) and
+`usT` (TT), the mean anomaly advances by `n · (usT − usE − 32.184 s − (TAI − UTC))` — not by `n · (usT − usE)`. -/
+theorem kepler_M_advance_UTC_to_TT {env : Date.Env} (mu : ℝ) (x : Elts) (usE usT : ℤ) (e t : Date.Date)
+    (hE : Date.ofDatetime Date.cfg env (C03.ix "UTC") usE = .ok e) (hT : Date.ofDatetime Date.cfg env (C03.ix "TT") usT = .ok t)
+    (hleap : e.eop.taiUtc % 10 = 0) (hmu : 0 < mu) (ha : x.a ≠ 0) :
+    (keplerTo mu ⟨x, e⟩ t).elts.M
+      = x.M + Real.sqrt (mu / |x.a| ^ 3) * ((((usT - usE) * 10 - 321840000 - e.eop.taiUtc : ℤ) : ℝ) / 10000000) := by
+  obtain ⟨hwE, hsE, _⟩ := Date.ofDatetime_spec hE
+  obtain ⟨hwT, hsT, _⟩ := Date.ofDatetime_spec hT
+  have hoE := (off_TT_UTC hwE).2 hsE
+  have hoT := (off_TT_UTC hwT).1 hsT
+  rw [(kepler_M_advance_readings mu x _ _ usE usT e t hE hT (by rw [hoE]; exact hleap) (by rw [hoT]; decide) hmu ha).2.2, hoE, hoT]
+  have hint : (10 * usT + -321840000 - (10 * usE + e.eop.taiUtc) : ℤ) = (usT - usE) * 10 - 321840000 - e.eop.taiUtc := by omega
+  rw [hint]
+
+/-- a date is determined, as far as `−`, comparisons and the propagators go, by its instant: two dates at the same instant
+(however labelled) have the same reference-scale datetime -/
+theorem datetimeRef_of_inst (x y : Date.Date) (hx : 0 ≤ x.s ∧ x.s < Date.D) (hy : 0 ≤ y.s ∧ y.s < Date.D)
+    (h : x.inst = y.inst) : x.datetimeRef = y.datetimeRef := by
+  have : x.d = y.d ∧ x.s = y.s := by
+    simp only [Date.Date.inst, Date.D] at *
+    omega
+  simp only [Date.Date.datetimeRef, this.1, this.2]
+
+/-- **The result depends on the instants only, never on the scale labels**: the same orbit with its epoch relabelled,
+propagated to the same instant given in another scale, gets the same elements — Kepler and J2. -/
+theorem propagate_label_free (mu : ℝ) (o o' : Orb) (date date' : Date.Date) (helts : o.elts = o'.elts)
+    (hs : (0 ≤ o.date.s ∧ o.date.s < Date.D) ∧ (0 ≤ o'.date.s ∧ o'.date.s < Date.D) ∧
+          (0 ≤ date.s ∧ date.s < Date.D) ∧ (0 ≤ date'.s ∧ date'.s < Date.D))
+    (hE : o.date.inst = o'.date.inst) (hD : date.inst = date'.inst) :
+    (keplerTo mu o date).elts = (keplerTo mu o' date').elts ∧ (j2To mu o date).elts = (j2To mu o' date').elts := by
+  have h1 := datetimeRef_of_inst _ _ hs.1 hs.2.1 hE
+  have h2 := datetimeRef_of_inst _ _ hs.2.2.1 hs.2.2.2 hD
+  simp only [keplerTo, j2To, (deltaT_eq _ _).1, (deltaT_eq _ _).2, Date.subDate, h1, h2, helts, and_self]
+
+example : (⟨58000, 370000000, 370000000, 2, ⟨370000000, 0⟩⟩ : Date.Date).inst
+    = (⟨58000, 370000000, 321840000, 5, ⟨370000000, 0⟩⟩ : Date.Date).inst := by decide
+
+/-- **Composition through dates**: `propagate(d₁)` then `propagate(d₂)` = `propagate(d₂)`, exactly, for an epoch, an
+intermediate date and a final date in any three scales, in any order in time. -/
+theorem kepler_compose_dates (mu : ℝ) (o : Orb) (d₁ d₂ : Date.Date) :
+    keplerTo mu (keplerTo mu o d₁) d₂ = keplerTo mu o d₂ := by
+  simp only [keplerTo, kepler_compose, (deltaT_telescope o.date d₁ d₂).1]
+
+/-- **Inverse through dates**: propagating to any date and back to the epoch returns the orbit. -/
+theorem kepler_inverse_dates (mu : ℝ) (o : Orb) (d : Date.Date) : keplerTo mu (keplerTo mu o d) o.date = o := by
+  rw [kepler_compose_dates]
+  simp only [keplerTo, (deltaT_self o.date).1, kepler_zero]
+
+/-! ### `timedelta` arguments: `date = self.orbit.date + date` first -/
+
+/-- a `timedelta` argument is the propagation to the date `epoch + timedelta` (built in the epoch's own scale) -/
+theorem timedelta_is_date {env : Date.Env} (mu : ℝ) (o : Orb) (td : ℤ) (d : Date.Date)
+    (h : Date.add Date.cfg env o.date td = .ok d) :
+    keplerToTd Date.cfg env mu o td = .ok (keplerTo mu o d) ∧ j2ToTd Date.cfg env mu o td = .ok (j2To mu o d) := by
+  simp [keplerToTd, j2ToTd, keplerTdTarget, j2TdTarget, h]
+
+/-- **`propagate(timedelta)` advances `M` by n times the timedelta** when the epoch is in a scale at a constant offset from
+TAI (TAI, TT, GPS) — also across leap seconds and for every Earth-orientation environment (`C03.add_sub_const_scales`). -/
+theorem kepler_M_advance_timedelta {env : Date.Env} (mu : ℝ) (o r : Orb) (td : ℤ) (hmu : 0 < mu) (ha : o.elts.a ≠ 0)
+    (hx : Date.WF Date.cfg env o.date) (hus : o.date.s % 10 = 0) (hc : o.date.scale ∈ C03.constIx)
+    (h : keplerToTd Date.cfg env mu o td = .ok r) :
+    r.elts.M = o.elts.M + Real.sqrt (mu / |o.elts.a| ^ 3) * ((td : ℝ) / 1000000) := by
+  simp only [keplerToTd, keplerTdTarget] at h
+  split at h
+  · next d hd =>
+    have hsub := C03.add_sub_const_scales hx hus hc hd
+    rw [← Except.ok.inj h, kepler_M_advance_dates_us mu o d hmu ha, hsub]
+  · cases h
+
+/-- … and in every scale (UTC in particular) when the new date has the same offset to TAI as the epoch — **UTC when no leap
+second intervenes** (`C03.add_sub`). -/
+theorem kepler_M_advance_timedelta_same_offset {env : Date.Env} (mu : ℝ) (o r : Orb) (td : ℤ) (hmu : 0 < mu)
+    (ha : o.elts.a ≠ 0) (hx : Date.WF Date.cfg env o.date) (hus : o.date.s % 10 = 0)
+    (h : keplerToTd Date.cfg env mu o td = .ok r) (hoff : r.date.off = o.date.off) :
+    r.elts.M = o.elts.M + Real.sqrt (mu / |o.elts.a| ^ 3) * ((td : ℝ) / 1000000) := by
+  simp only [keplerToTd, keplerTdTarget] at h
+  split at h
+  · next d hd =>
+    have hr := Except.ok.inj h
+    have hoff' : d.off = o.date.off := by rw [← hr] at hoff; simpa [keplerTo] using hoff
+    have hsub := C03.add_sub hx hus hd hoff'
+    rw [← hr, kepler_M_advance_dates_us mu o d hmu ha, hsub]
+  · cases h
+
+/-- two timedelta legs compose to the direct propagation to the final date (dates may fail to build; when they do not) -/
+theorem kepler_compose_timedelta {env : Date.Env} (mu : ℝ) (o r₁ r₂ : Orb) (t₁ t₂ : ℤ)
+    (h₁ : keplerToTd Date.cfg env mu o t₁ = .ok r₁) (h₂ : keplerToTd Date.cfg env mu r₁ t₂ = .ok r₂) :
+    r₂ = keplerTo mu o r₂.date := by
+  simp only [keplerToTd, keplerTdTarget] at h₁ h₂
+  split at h₁
+  · next d₁ _ =>
+    split at h₂
+    · next d₂ _ =>
+      rw [← Except.ok.inj h₂, ← Except.ok.inj h₁, kepler_compose_dates]
+      simp [keplerTo]
+    · cases h₂
+  · cases h₁
+
+/-- **History independence with dates**: whatever the propagator object holds from earlier calls (elements or epoch), the
+result is the propagation of the caller's orbit as it is now — current elements AND current epoch (in whatever scale it was
+relabelled in place). -/
+theorem propagateTo_history_independent (toF : Orb → Date.Date → Orb) (p p' : PropObjD) (o : Orb) (date : Date.Date) :
+    (orbitPropagateTo toF p o date).2 = some (toF o date) ∧
+    (orbitPropagateTo toF p o date).2 = (orbitPropagateTo toF p' o date).2 ∧
+    (orbitPropagateTo toF p o date).1.orbit = some o := by
+  simp [orbitPropagateTo]
 
 /-! ## The propagator object: every propagation starts from the CURRENT state of the orbit -/
 
@@ -640,6 +873,39 @@ theorem j2_inverse (mu : ℝ) (x : Elts) (t : ℝ)
 
 example : (0 : ℝ) ≤ 1 ∧ (1 : ℝ) < 2 * Real.pi := by
   have := Real.two_le_pi; constructor <;> linarith
+
+/-! ### J2 to a date, epoch and target in any pair of scales -/
+
+/-- **J2 composition through dates** (wrap included), any three scales. -/
+theorem j2_compose_dates (mu : ℝ) (o : Orb) (d₁ d₂ : Date.Date) : j2To mu (j2To mu o d₁) d₂ = j2To mu o d₂ := by
+  simp only [j2To, j2_compose, (deltaT_telescope o.date d₁ d₂).2]
+
+/-- **J2 inverse through dates**, for a state given with angles in `[0, 2π)`. -/
+theorem j2_inverse_dates (mu : ℝ) (o : Orb) (d : Date.Date)
+    (hΩ : 0 ≤ o.elts.raan ∧ o.elts.raan < 2 * Real.pi) (hω : 0 ≤ o.elts.argp ∧ o.elts.argp < 2 * Real.pi)
+    (hM : 0 ≤ o.elts.M ∧ o.elts.M < 2 * Real.pi) : j2To mu (j2To mu o d) o.date = o := by
+  rw [j2_compose_dates]
+  simp only [j2To, (deltaT_self o.date).2]
+  have := j2_inverse mu o.elts 0 hΩ hω hM
+  rw [neg_zero, j2_compose, add_zero] at this
+  rw [this]
+
+/-- **J2, any pair of scales**: a, e, i constant, the three angles drift at the secular rates times the time elapsed between
+the two instants (mod 2π). -/
+theorem j2_step_mod_dates (mu : ℝ) (o : Orb) (date : Date.Date) (hmu : 0 < mu) (ha : 0 < o.elts.a) (he0 : 0 ≤ o.elts.e)
+    (he1 : o.elts.e < 1) (hd : date.s % 10 = 0) (he : o.date.s % 10 = 0) :
+    let dt : ℝ := ((date.inst - o.date.inst : ℤ) : ℝ) / 10000000
+    (j2To mu o date).elts.a = o.elts.a ∧ (j2To mu o date).elts.e = o.elts.e ∧ (j2To mu o date).elts.i = o.elts.i ∧
+    (∃ k : ℤ, (j2To mu o date).elts.raan = o.elts.raan + nodeRate mu o.elts.a o.elts.e o.elts.i * dt + 2 * Real.pi * k) ∧
+    (∃ k : ℤ, (j2To mu o date).elts.argp = o.elts.argp + perigeeRate mu o.elts.a o.elts.e o.elts.i * dt + 2 * Real.pi * k) ∧
+    (∃ k : ℤ, (j2To mu o date).elts.M = o.elts.M + meanAnomalyRate mu o.elts.a o.elts.e o.elts.i * dt + 2 * Real.pi * k) := by
+  intro dt
+  have h := j2_step_mod mu o.elts (j2DeltaT date o.date) hmu ha he0 he1
+  have hc := j2_aei_constant mu o.elts (j2DeltaT date o.date)
+  have hdt : j2DeltaT date o.date = dt := (deltaT_eq_instant_diff date o.date hd he).2
+  rw [hdt] at h hc
+  simp only [j2To, hdt]
+  exact ⟨hc.1, hc.2.1, hc.2.2, h.1, h.2.1, h.2.2⟩
 
 /-! ## Sun-synchronous inclination (shared with C19): `leo.sso(a=a, e=e)` returns `arccos (ssoCosI a e)` -/
 
